@@ -117,6 +117,9 @@ impl Property for C09 {
         case.cfg.insert("flaky_fail_at".into(), json!(fails));
         case
     }
+    fn timeout_s(&self) -> u64 {
+        20
+    }
     fn check(&self, case: &Case) -> CaseResult {
         let mut res = CaseResult::new();
         let mode = mode_of(case);
